@@ -714,17 +714,24 @@ func ruleBisectStep(c *Ctx) {
 			if !ok || fs.Init != nil || fs.Post != nil || fs.Cond == nil {
 				return true
 			}
-			// cond: lo + 1 < hi
-			cond, ok := ast.Unparen(fs.Cond).(*ast.BinaryExpr)
-			if !ok || cond.Op != token.LSS {
+			// cond: lo + 1 < hi, in any spelling (hi > lo+1, hi-lo > 1, !(lo+1 >= hi)): brought to `q < 0`
+			_, cp, cop := condCutOf(info, fs.Cond, nil)
+			if cp == nil {
 				return true
 			}
-			p, ok := exprPoly(info, cond.X, nil, nil, 0)
-			q, ok2 := exprPoly(info, cond.Y, nil, nil, 0)
-			if !ok || !ok2 {
+			var d Poly
+			switch cop {
+			case token.LSS:
+				d = cp
+			case token.GTR:
+				d = polyMul(cp, polyConst(-1))
+			case token.LEQ:
+				d = polyAdd(cp, polyConst(1), -1)
+			case token.GEQ:
+				d = polyAdd(polyMul(cp, polyConst(-1)), polyConst(1), -1)
+			default:
 				return true
 			}
-			d := polyAdd(p, q, -1) // lo + 1 - hi
 			as := atomsOf(d)
 			if len(as) != 2 || d[""] != 1 {
 				return true
@@ -740,25 +747,31 @@ func ruleBisectStep(c *Ctx) {
 			if lo == "" || hi == "" || len(fs.Body.List) < 2 {
 				return true
 			}
-			// first statement: mid = lo + (hi-lo)/2
-			first, ok := fs.Body.List[0].(*ast.AssignStmt)
-			if !ok || len(first.Lhs) != 1 || len(first.Rhs) != 1 {
-				return true
-			}
-			mid := strings.ReplaceAll(types.ExprString(first.Lhs[0]), " ", "")
-			mp, ok := exprPoly(info, first.Rhs[0], nil, nil, 0)
-			if !ok {
-				return true
-			}
+			// the probe: mid = lo + (hi-lo)/2, possibly through a local for the span
+			defs := singleDefs(info, fd.Body)
 			wantMid := polyAdd(polyAtom(lo), polyDiv(polyAdd(polyAtom(hi), polyAtom(lo), -1), polyConst(2)), 1)
-			if !polyEq(mp, wantMid) {
+			mid := ""
+			midAt := -1
+			for i, st := range fs.Body.List {
+				first, ok := st.(*ast.AssignStmt)
+				if !ok || len(first.Lhs) != 1 || len(first.Rhs) != 1 {
+					continue
+				}
+				mp, ok := exprPoly(info, first.Rhs[0], defs, nil, 0)
+				if ok && polyEq(mp, wantMid) {
+					mid = strings.ReplaceAll(types.ExprString(first.Lhs[0]), " ", "")
+					midAt = i
+					break
+				}
+			}
+			if mid == "" {
 				return true
 			}
 			found++
 			key := fname + "@bisect"
 			// the if/else that moves the bounds
 			var mover *ast.IfStmt
-			for _, st := range fs.Body.List[1:] {
+			for _, st := range fs.Body.List[midAt+1:] {
 				if is, ok := st.(*ast.IfStmt); ok && is.Else != nil {
 					mover = is
 				}
@@ -778,7 +791,7 @@ func ruleBisectStep(c *Ctx) {
 						continue
 					}
 					rp, ok := exprPoly(info, as.Rhs[0], nil, nil, 0)
-					if !ok || !polyEq(rp, polyAtom(mid)) {
+					if !ok || !polyEq(rp, polyAtom(exprAtomText(info, mid))) {
 						return fmt.Sprintf("`%s = %s`", l, types.ExprString(as.Rhs[0])), false
 					}
 					return l, true
@@ -857,3 +870,6 @@ func init() {
 		os.Exit(0)
 	}
 }
+
+// exprAtomText: the atom exprPoly gives a plain place written as text (spec.X -> X is not needed here).
+func exprAtomText(info *types.Info, s string) string { return s }
